@@ -8,7 +8,30 @@ pub const TRANS_LAT: f64 = 0.7297276562269663;
 pub static SIGNATURES: &[(&str, FindingPred)] = &[
   ("R5", r5_bsd),
   ("R5", r5_cone_miss),
+  ("R17", r17_tiny_polygon),
+  ("R21", r21_exact_lon0),
 ];
+
+/// R21 — exact mode, edge crossing lon = 0 inside a polar cap: arc_special_point_in_pc builds the sub-arc of the
+/// first quarter with the normal of the wrong meridian plane; the "special point" may lie on the great circle beyond
+/// the end of the edge and its cell is added to the coverage (a cell too far from the polygon).
+fn r21_exact_lon0(sig: &str, c: &Case) -> bool {
+  if c.mon() != "poly" || sig != "reported-cell-farther-than-R+2-cell-radii" || !c.gb("exact") { return false; }
+  let (vl, vb) = (c.gfl("vl"), c.gfl("vb"));
+  let crosses0 = vl.iter().any(|&l| l < 1.0) && vl.iter().any(|&l| l > 5.0);
+  let in_cap = vb.iter().any(|&b| b.abs() > TRANS_LAT);
+  crosses0 && in_cap
+}
+
+/// R17 — polygon predicates built on un-normalised cross products: ill-conditioned (eps / R^2) for polygons whose
+/// bounding radius is below 1e-6 rad. Any C12 polygon violation (mon=poly) with R < 1e-6 rad.
+fn r17_tiny_polygon(sig: &str, c: &Case) -> bool {
+  if c.mon() != "poly" || c.get("R").is_none() { return false; }
+  let known_sigs = ["Polygon::contains-differs-from-the-geometric-definition", "cell-flagged-full-has-a-vertex-or-centre-outside-the-polygon",
+    "reported-cell-farther-than-R+2-cell-radii", "polygon-vertex-cell-missing"];
+  if !known_sigs.contains(&sig) { return false; }
+  c.gf("R") < 1e-6
+}
 
 /// R5 seen through the coverage queries (C05, C13 circular case): a miss whose missed cell lies outside the 3x3 block
 /// of the start depth, for a cone in the R5 zone (|lat| > asin(2/3), within 0.15 rad in longitude of a meridian k.pi/2,
